@@ -20,7 +20,7 @@ LEVEL_NOTE = ("theorems: list, restore, rm and empty factor through the same two
               "directory ($topdir for volume dirs, '/' for the home trash, the same lexical volume for --trash-dir); C20Cmd.commands_agree_on_entry: for one entry of a scanned directory the line of trash-list, the line and destination of trash-restore, the subject of trash-rm and the date of trash-empty DAYS are functions of the same text and base")
 RULE = ("exhaustive product: 49 .trashinfo content templates (4 of them with a look-alike twin entry: NFC/NFD, ligature, letter case) (absolute / relative Path, percent-escapes of every byte class, "
         "lower-case hex, malformed escapes, raw UTF-8 and non-UTF-8 bytes, duplicate keys, extra keys and sections, missing "
-        "header, CRLF, lone CR, trailing blanks, 9 date spellings) x 7 trash-dir kinds (home on / , home on its own volume, "
+        "header, CRLF, lone CR, trailing blanks, 14 date spellings) x 7 trash-dir kinds (home on / , home on its own volume, "
         ".Trash/uid, .Trash-uid, --trash-dir) ; per case five runs (list, restore listing, restore, rm by exact path, empty at "
         "the date boundary) and their mutual consistency")
 
@@ -33,7 +33,7 @@ PATHS = [b"{ABS}/plain", b"{REL}/plain", b"plain", b"{ABS}/with%20space", b"{ABS
 TWINS = {b"{ABS}/cafe%CC%81.txt": b"{ABS}/caf%C3%A9.txt", b"{ABS}/caf%C3%A9.txt": b"{ABS}/cafe%CC%81.txt",
          b"{ABS}/\xef\xac\x81le": b"{ABS}/file", b"{ABS}/CaseName": b"{ABS}/casename"}
 DATES = [b"2024-03-01T12:00:00", b"2024-3-1T9:5:7", b"2024-03-01t12:00:00", b"2024-02-30T00:00:00", b"garbage", b"2024-03-01T12:00:00 ",
-         b"0001-01-01T00:00:00", b"9999-12-31T23:59:59", None]
+         b"0001-01-01T00:00:00", b"9999-12-31T23:59:59", None, b"2024-03-01 12:00:00", b"2024-03-01_12:00:00", b"2024-W09-5T12:00:00", b"20240301T120000.000", b"2024-03-01T12:00+01"]
 SHAPES = ["std", "crlf", "lone-cr", "no-header", "dup-keys", "extra", "date-first", "no-final-newline"]
 
 
